@@ -16,6 +16,8 @@ def fr(x):
 
 
 def pf(s):
+    if isinstance(s, list):                       # a multichannel (list-valued) entry
+        return [pf(i) for i in s]
     return float(Fraction(s))
 
 
@@ -71,22 +73,35 @@ def run_case(Env, case):
                 pass
     try:
         data = e._envgen_format()
-        if len(data) != 1:
+        if case.get('mc'):
+            out['fmt'] = [[fr(v) for v in ch] for ch in data]
+        elif len(data) != 1:
             out['fmt'] = f'E:multichannel({len(data)})'
         else:
             out['fmt'] = [fr(v) for v in data[0]]
     except Exception as ex:
         out['fmt'] = f'E:{type(ex).__name__}'
+    # the node-parameter entry point: an Env given as the value of a synth control
+    try:
+        ci = e._as_control_input()
+        out['ctl'] = [[fr(v) for v in ch] for ch in ci] if isinstance(ci, list) else [[fr(v) for v in ci]]
+        lst = []
+        e._embed_as_osc_arg(lst)
+        out['osc'] = [x if isinstance(x, str) else fr(x) for x in lst]
+    except Exception as ex:
+        out['ctl'] = f'E:{type(ex).__name__}'
     ats = []
     for t in case.get('at', []):
         try:
-            ats.append(fr(e._at(pf(t))))
+            v = e._at(pf(t))
+            ats.append([fr(x) for x in v] if isinstance(v, list) else fr(v))
         except Exception as ex:
             ats.append(f'E:{type(ex).__name__}')
     out['at'] = ats
     try:
-        out['env'] = {'levels': [fr(v) for v in e.levels], 'times': [fr(v) for v in e.times],
-                      'offset': fr(e.offset)}
+        if not case.get('mc'):
+            out['env'] = {'levels': [fr(v) for v in e.levels], 'times': [fr(v) for v in e.times],
+                          'offset': fr(e.offset)}
     except Exception:
         pass
     return out
